@@ -3,11 +3,15 @@
 package main
 
 import (
+	"crypto/ed25519"
+	"crypto/sha256"
 	"encoding/hex"
 	"fmt"
+	"github.com/tonkeeper/tongo/wallet"
 	"math/big"
 	"reflect"
 	"strconv"
+	"time"
 
 	"github.com/tonkeeper/tongo/boc"
 	"github.com/tonkeeper/tongo/tlb"
@@ -26,6 +30,7 @@ func init() {
 		"tlb.dec":      exTlbDec,
 		"go.redec":     goReDecode,
 		"go.rt":        goRoundTrip,
+		"go.w5beta":    goW5BetaBody,
 	})})
 }
 
@@ -73,6 +78,49 @@ func exExtMsg(a []string) string {
 	return "ok " + tlbx.CellText(c)
 }
 
+// go.w5beta <seed> <msgtype> <seqno> <valid until> <n>: the body wallet v5 beta WRITES (Wallet.CreateMessageBody →
+// createSignedMsgBodyCell) is the cell the READER's struct wallet.MessageV5Beta marshals to after decoding it — so the
+// schema transcribed from the struct (impl_eq_spec_WalletV5BetaBody, tlb.spec lines) is also the writer's layout.
+func goW5BetaBody(a []string) string {
+	seed := sha256.Sum256([]byte(a[0]))
+	key := ed25519.NewKeyFromSeed(seed[:])
+	mt, _ := strconv.ParseUint(a[1], 10, 32)
+	seq, _ := strconv.ParseUint(a[2], 10, 32)
+	vu, _ := strconv.ParseInt(a[3], 10, 64)
+	n, _ := strconv.Atoi(a[4])
+	w, err := wallet.New(key, wallet.V5Beta, nil)
+	if err != nil {
+		return "bad-op"
+	}
+	var msgs []wallet.Sendable
+	for i := 0; i < n; i++ {
+		msgs = append(msgs, wallet.SimpleTransfer{Amount: tlb.Grams(1000 + i), Address: w.GetAddress()})
+	}
+	body, err := w.CreateMessageBody(wallet.MessageConfig{Seqno: uint32(seq), ValidUntil: time.Unix(vu, 0),
+		V5MsgType: wallet.V5MsgType(mt)}, msgs...)
+	if err != nil {
+		return "ok err"
+	}
+	h1, err := body.Hash()
+	if err != nil {
+		return "bad-op"
+	}
+	var m wallet.MessageV5Beta
+	body.ResetCounters()
+	if err := tlb.Unmarshal(body, &m); err != nil {
+		return "FAIL written-body-not-decodable-as-MessageV5Beta"
+	}
+	c := boc.NewCell()
+	if err := tlb.Marshal(c, m); err != nil {
+		return "FAIL decoded-body-not-encodable"
+	}
+	h2, _ := c.Hash()
+	if hex.EncodeToString(h1) != hex.EncodeToString(h2) {
+		return "FAIL writer-and-reader-layouts-differ"
+	}
+	return fmt.Sprintf("ok same %s %d", m.SumType, n)
+}
+
 // structures with a transcribed schema: Go type → entry of Spec.senv
 var specStructs = [][2]string{
 	{"tlb.Grams", "Grams"}, {"tlb.CurrencyCollection", "CurrencyCollection"},
@@ -103,6 +151,7 @@ var specStructs = [][2]string{
 	{"wallet.W5Actions", "OutList"}, {"wallet.W5ExtendedAction", "W5ExtendedAction"},
 	{"wallet.W5ExtendedActions", "W5ExtendedActions"}, {"wallet.MessageV5", "WalletV5R1Body"},
 	{"wallet.HighloadV2Message", "HighloadV2Body"},
+	{"wallet.WalletV5ID", "WalletV5ID"}, {"wallet.MessageV5Beta", "WalletV5BetaBody"},
 	{"tlb.BurningConfig", "BurningConfig"}, {"tlb.MsgMetadata", "MsgMetadata"},
 }
 
@@ -229,6 +278,12 @@ func genC04(g *h.G) {
 		}
 		fee := new(big.Int).Rand(g.Rng, pow(8*g.Rng.Intn(9)))
 		g.Emit("tlb.extmsg", fmt.Sprint(wc), hex.EncodeToString(addr), tlbx.CellText(body), init, fee.String())
+	}
+	// (c') wallet v5 beta: the writer of the body against the reader's struct (whose schema is transcribed)
+	for i := 0; i < g.Scale(24, 300); i++ {
+		mt := []uint32{0x73696e74, 0x7369676e}[i%2]
+		g.Emit("go.w5beta", fmt.Sprint(g.Rng.Int63()), fmt.Sprint(mt), fmt.Sprint(g.Rng.Uint32()),
+			fmt.Sprint(g.Rng.Int63n(1<<32)), fmt.Sprint(g.Rng.Intn(5)))
 	}
 	// (d) real chain data: every transaction / message / state-init of the test blocks re-encoded; hashes compared
 	genTags(g)
